@@ -204,6 +204,16 @@ def mc_arrays(case, fluxkind):
     return concretise(exps, case['grid'], ivs, fluxkind)
 
 
+def describe_exposure(e):
+    good = e['good']
+    if len(good) <= 24:
+        txt = good
+    else:
+        bad = [k for k, ch in enumerate(good) if ch == '0']
+        txt = '%d pixels, zero weight at %s' % (len(good), bad if len(bad) <= 8 else '%d pixels in %d..%d' % (len(bad), bad[0], bad[-1]))
+    return txt if e['sh'][0] == 0 else '%s offset %s' % (txt, '/'.join(map(str, e['sh'])) if e['sh'][1] != 1 else e['sh'][0])
+
+
 def mc_run_one(ctx, rep, case, method, use_ivar, fluxkind, stats):
     """Execute one call of a TLC case and judge it; returns True if it conforms."""
     inll, flux, ivar, newll = mc_arrays(case, fluxkind)
@@ -226,7 +236,7 @@ def mc_run_one(ctx, rep, case, method, use_ivar, fluxkind, stats):
         no_good_out = v is not None and not (v > 0).any()
         call = dict(case, method=method, use_ivar=use_ivar, flux=fluxkind)
         call['what'] = ('combine1fiber on pattern %s -> grid %s (aesthetics=%s, objivar %s): %s: %s' % (
-            '+'.join(e['good'] if len(e['good']) <= 24 else 'pat%d x%d' % (case['pat'], len(e['good'])) for e in case['exps']),
+            '+'.join(describe_exposure(e) for e in case['exps']),
             case['grid'], method, 'given' if use_ivar else 'absent', clause, detail))
         call['clause'] = clause
         rep.report('replay-' + case['family'], clause, call, classify(clause, detail, method, use_ivar, no_good_out))
@@ -237,19 +247,26 @@ def run_mc(ctx, rep):
     cfg = 'MC_Resample_quick.cfg' if ctx.quick else 'MC_Resample_thorough.cfg'
     r = ctx.tlc('MC_Resample.tla', cfg, dump=True, timeout=1500)
     rng = random.Random(ctx.seed)
-    keep_single = 0.30 if ctx.quick else 1.0
+    keep_single = 0.25 if ctx.quick else 1.0
+    keep_stack = 0.07 if ctx.quick else 0.15       # 2-D calls on >= 105-pixel exposures cost ~0.1 s each
     stats = collections.Counter()
     n = 0
     sampled = 0
     for st in core.iter_states(r):
         kind = st['c'].get('kind')
-        if kind not in ('single', 'infl', 'pair', 'pairinfl'):
+        if kind not in ('single', 'infl', 'pair', 'pairinfl', 'stack'):
             continue
         stats['cases_' + kind] += 1
         if kind == 'pair':
             continue            # spec-level laws only: exposures of <= 6 pixels are below the >= 101 good pixels of the statement
         if kind == 'single' and rng.random() >= keep_single:
             continue
+        if kind == 'stack':
+            # the family exists for isolated zero-weight pixels in the singly covered ends: those cases (slot bits 2, 3 of
+            # either pattern) are sampled three times as densely as the others
+            w = 1.5 if ((st['c']['pat'] | st['c']['pat2']) & 6) else 0.5
+            if rng.random() >= keep_stack * w:
+                continue
         n += 1
         case = mc_case(st)
         fluxkind = 'smooth' if n % 2 else 'const'
@@ -259,7 +276,7 @@ def run_mc(ctx, rep):
         if allgood:
             for m in METHODS:       # without inverse variance: every pixel has unit weight
                 mc_run_one(ctx, rep, case, m, False, fluxkind, stats)
-        if n % 11 == 0 and kind != 'pairinfl':
+        if n % 11 == 0 and kind not in ('pairinfl', 'stack'):
             for m in METHODS:
                 if m != method:
                     mc_run_one(ctx, rep, case, m, True, fluxkind, stats)
@@ -333,13 +350,21 @@ def item_resample(sub, quick):
     n = rng.randrange(300, 2001) if nexp == 1 else rng.randrange(300, 500 if quick else 700)
     q = 4
     use_ivar = not (nexp == 1 and rng.random() < 0.12)
-    shifts = [Fraction(0)] + [rng.choice([Fraction(0), Fraction(1, 2), Fraction(1, 3), Fraction(1, 4), Fraction(2, 3), Fraction(-1, 2), Fraction(5, 2)])
+    # sub-pixel dithers and exposures whose coverage differs by several pixels (either direction)
+    shifts = [Fraction(0)] + [rng.choice([Fraction(0), Fraction(1, 2), Fraction(1, 3), Fraction(1, 4), Fraction(2, 3), Fraction(-1, 2), Fraction(5, 2),
+                                          Fraction(3), Fraction(7), Fraction(20), Fraction(-5), Fraction(60), Fraction(-41, 2), Fraction(31, 3)])
                               for _ in range(nexp - 1)]
+    rng.shuffle(shifts)
     ivs = []
     for _ in range(nexp):
         iv = random_iv(rng, n) if use_ivar else np.ones(n, dtype=np.int64)
         while (iv > 0).sum() < 101:
             iv = random_iv(rng, n)
+        if use_ivar and nexp > 1:        # isolated zero-weight pixels near the ends, where another exposure may not reach
+            for lo in (0, n - 4):
+                if rng.random() < 0.7:
+                    iv[lo:lo + 4] = [rng.choice([1, 2, 4, 8]) for _ in range(4)]
+                    iv[lo + rng.choice([1, 2])] = 0
         ivs.append(iv)
     if not use_ivar:
         q = 1
@@ -613,7 +638,9 @@ def run(ctx):
         'aesthetics="damp", which tapers the whole spectrum by design',
         'positions are rationals with denominators <= 10 in pixel units; offsets below the function\'s float32-eps tolerance '
         '(1e-3 pixel) are not exercised',
-        'pair cases of <= 6 pixels are checked at spec level only; 2-D replays use inflated patterns with >= 101 good pixels per exposure',
+        'pair cases of <= 6 pixels (incl. a shorter second exposure) are checked at spec level only; 2-D replays use inflated patterns '
+        'and the "stack" family (110-pixel exposures displaced by 3/7/20 pixels, isolated zero-weight pixels in the singly covered '
+        'ends, a seeded sample of the TLC cases) with >= 101 good pixels per exposure; rows of a real stack have equal length',
         'SPPIXMASK bit numbers come from a generated parameter file read by pydl\'s own set_maskbits']
     load_maskbits(ctx)
     rep = Reporter(ctx)
